@@ -306,3 +306,269 @@ Proof.
   rewrite (link_rigid_match_at cs0 u (length u - length cs0)) by lia.
   rewrite Hc, Hl0. reflexivity.
 Qed.
+
+(* ================= the passes that update the pattern array (in-out parameter: returned with the result) ================= *)
+Lemma canon_set_match p a b :
+  M_BasePattern_set_match p a b = Some (BasePattern_mk (BasePattern_start p) (BasePattern_end p) (BasePattern_is_rigid p) a b).
+Proof. unfold M_BasePattern_set_match, BasePattern_set_match. destruct p. reflexivity. Qed.
+Lemma convb_set_match p a b :
+  convb (BasePattern_mk (BasePattern_start p) (BasePattern_end p) (BasePattern_is_rigid p) a b) = b_set_match (convb p) a b.
+Proof. reflexivity. Qed.
+
+(* ---- shift_pattern_start ---- *)
+Definition shift_res (r : option (loopres (list BasePattern * unit) (list BasePattern))) : option (list bpat) :=
+  match r with Some (LoopDone l) => Some (map convb l) | _ => None end.
+Lemma link_shift_loop d : forall l acc, Forall (fun p => d <= BasePattern_start p /\ d <= BasePattern_end p) l ->
+  shift_res (fn_shift_pattern_start_loop1 l d acc) = Some (map convb acc ++ map (fun q => b_shift q d) (map convb l)).
+Proof.
+  induction l as [|p l IH]; intros acc Hl; [cbn; rewrite app_nil_r; reflexivity|].
+  inversion Hl as [|? ? [H1 H2] Hl']; subst.
+  cbn [fn_shift_pattern_start_loop1 map]. unfold usize_sub.
+  replace (Nat.leb d (BasePattern_start p)) with true by lia. cbn [bind].
+  cbn [BasePattern_start BasePattern_end BasePattern_is_rigid BasePattern_start_match BasePattern_end_match].
+  replace (Nat.leb d (BasePattern_end p)) with true by lia. cbn [bind].
+  rewrite (IH _ Hl'). rewrite map_app, <- app_assoc. reflexivity.
+Qed.
+Lemma link_shift_pattern_start l d : Forall (fun p => d <= BasePattern_start p /\ d <= BasePattern_end p) l ->
+  option_map (fun r => map convb (fst r)) (M_fn_shift_pattern_start l d) = Some (map (fun q => b_shift q d) (map convb l)).
+Proof.
+  intros Hl. unfold M_fn_shift_pattern_start, fn_shift_pattern_start.
+  pose proof (link_shift_loop d l [] Hl) as H. cbn [map app] in H.
+  destruct (fn_shift_pattern_start_loop1 l d []) as [[x|x]|]; cbn [shift_res] in H; try discriminate.
+  cbn [bind option_map fst]. exact H.
+Qed.
+
+(* ---- find_rigid_matches: every rigid pattern lies inside v and its slice consists of Range terms ---- *)
+Definition rigid_ok (v : list RE) (p : BasePattern) : Prop := BasePattern_is_rigid p = true -> pat_ok v p.
+
+Lemma pat_sets_link v p : pat_ok v p ->
+  exists cs0, slice_range v (BasePattern_start p) (BasePattern_end p) = Some (firstn (BasePattern_end p - BasePattern_start p) (skipn (BasePattern_start p) v)) /\
+              M_fn_char_sets_of_pattern (firstn (BasePattern_end p - BasePattern_start p) (skipn (BasePattern_start p) v)) = Some cs0 /\
+              map conv cs0 = pat_sets (map conv_re v) (convb p).
+Proof.
+  intros [[H1 H2] Hr]. pose proof (link_char_sets_of_pattern _ Hr) as Hc.
+  destruct (M_fn_char_sets_of_pattern _) as [cs0|]; [|discriminate Hc]. cbn [option_map] in Hc. injection Hc as Hc.
+  exists cs0. split; [|split; [reflexivity|]].
+  - unfold slice_range. replace (Nat.leb (BasePattern_start p) (BasePattern_end p) && Nat.leb (BasePattern_end p) (length v)) with true by lia. reflexivity.
+  - rewrite Hc, slice_conv. reflexivity.
+Qed.
+
+Definition frm_res (r : option (loopres (list BasePattern * bool) (list BasePattern * nat))) : option (bool * list bpat) :=
+  match r with
+  | Some (LoopReturn (l, b)) => Some (b, map convb l)
+  | Some (LoopDone (l, _)) => Some (true, map convb l)
+  | None => None
+  end.
+
+Lemma link_frm_loop u v pats0 : forall l acc i, Forall (rigid_ok v) l ->
+  frm_res (fn_find_rigid_matches_loop1 l u v pats0 acc i)
+  = Some (let '(ok, t') := find_rigid_matches (map conv_re u) (map conv_re v) (map convb l) i in (ok, map convb acc ++ t')).
+Proof.
+  induction l as [|p l IH]; intros acc i Hl; [cbn; rewrite app_nil_r; reflexivity|].
+  inversion Hl as [|? ? Hp Hl']; subst.
+  cbn [fn_find_rigid_matches_loop1 map find_rigid_matches]. change (b_rigid (convb p)) with (BasePattern_is_rigid p).
+  destruct (BasePattern_is_rigid p) eqn:Er.
+  - destruct (pat_sets_link v p (Hp Er)) as (cs0 & Hs1 & Hs2 & Hcs). rewrite Hs1. cbn [bind]. rewrite Hs2. cbn [bind].
+    pose proof (link_next_rigid_match cs0 u i) as Hn. rewrite Hcs in Hn.
+    destruct (M_fn_next_rigid_match cs0 u i) as [[j k|]|]; cbn [option_map convsr] in Hn; try discriminate;
+      injection Hn as Hn; rewrite <- Hn; cbn [bind].
+    + rewrite canon_set_match. cbn [bind]. rewrite (IH _ k Hl').
+      destruct (find_rigid_matches (map conv_re u) (map conv_re v) (map convb l) k) as [ok t'].
+      rewrite map_app, <- app_assoc. cbn [map app]. rewrite convb_set_match. reflexivity.
+    + cbn [frm_res]. rewrite map_app. reflexivity.
+  - rewrite (IH _ i Hl').
+    destruct (find_rigid_matches (map conv_re u) (map conv_re v) (map convb l) i) as [ok t'].
+    rewrite map_app, <- app_assoc. reflexivity.
+Qed.
+
+(* find_rigid_matches returns the model's verdict and the model's updated pattern list *)
+Lemma link_find_rigid_matches u v l : Forall (rigid_ok v) l ->
+  option_map (fun r => (snd r, map convb (fst r))) (M_fn_find_rigid_matches u v l)
+  = Some (find_rigid_matches (map conv_re u) (map conv_re v) (map convb l) 0).
+Proof.
+  intros Hl. unfold M_fn_find_rigid_matches, fn_find_rigid_matches.
+  pose proof (link_frm_loop u v l l [] 0 Hl) as H. cbn [map app] in H.
+  destruct (find_rigid_matches (map conv_re u) (map conv_re v) (map convb l) 0) as [ok t'] eqn:Em.
+  destruct (fn_find_rigid_matches_loop1 l u v l [] 0) as [[[r b]|[r i]]|]; cbn [frm_res] in H; try discriminate;
+    cbn [bind option_map fst snd]; congruence.
+Qed.
+
+(* ---- set_flexible_regions: the in-place index loop is the model's left-to-right pass ---- *)
+Lemma nth_error_mid {A} (pre : list A) x rest : nth_error (pre ++ x :: rest) (length pre) = Some x.
+Proof. rewrite nth_error_app2 by lia. rewrite Nat.sub_diag. reflexivity. Qed.
+Lemma list_upd_mid {A} (pre : list A) x y rest : list_upd (pre ++ x :: rest) (length pre) y = Some (pre ++ y :: rest).
+Proof. induction pre as [|z pre IH]; [reflexivity|]. cbn [app length list_upd]. rewrite IH. reflexivity. Qed.
+
+Definition last_em (done : list BasePattern) : nat :=
+  match rev done with [] => 0 | q :: _ => BasePattern_end_match q end.
+Lemma last_em_snoc done q : last_em (done ++ [q]) = BasePattern_end_match q.
+Proof. unfold last_em. rewrite rev_app_distr. reflexivity. Qed.
+
+Definition sfr_res (r : option (loopres (list BasePattern * unit) (list BasePattern))) : option (list BasePattern) :=
+  match r with Some (LoopDone l) => Some l | _ => None end.
+
+Lemma link_sfr_loop slen : forall rest done,
+  exists R, sfr_res (fn_set_flexible_regions_loop1 (seq (length done) (length rest)) slen (done ++ rest)) = Some (done ++ R) /\
+            map convb R = set_flexible_regions_go (last_em done) (map convb rest) slen.
+Proof.
+  induction rest as [|p t IH]; intros done.
+  - exists []. cbn. split; reflexivity.
+  - cbn [length seq fn_set_flexible_regions_loop1 map set_flexible_regions_go].
+    rewrite nth_error_mid. cbn [bind]. change (b_rigid (convb p)) with (BasePattern_is_rigid p).
+    destruct (BasePattern_is_rigid p) eqn:Er; cbn [negb].
+    + (* rigid: untouched *)
+      specialize (IH (done ++ [p])). rewrite app_length in IH. cbn [length] in IH.
+      replace (length done + 1) with (S (length done)) in IH by lia. rewrite <- app_assoc in IH. cbn [app] in IH.
+      destruct IH as (R & H1 & H2). exists (p :: R). split.
+      * rewrite H1, <- app_assoc. reflexivity.
+      * cbn [map]. rewrite last_em_snoc in H2. rewrite H2. reflexivity.
+    + (* flexible: prev = end_match of the updated left neighbour, next = start_match of the right neighbour *)
+      assert (Hprev : (if Nat.eqb (length done) 0 then Some 0
+                       else do t53 <- usize_sub (length done) 1; do t54 <- nth_error (done ++ p :: t) t53; Some (BasePattern_end_match t54))
+                      = Some (last_em done)).
+      { destruct done as [|d0 done'] using rev_ind; [reflexivity|].
+        rewrite app_length. cbn [length]. replace (Nat.eqb (length done' + 1) 0) with false by lia.
+        unfold usize_sub. replace (Nat.leb 1 (length done' + 1)) with true by lia. cbn [bind].
+        replace (length done' + 1 - 1) with (length done') by lia.
+        rewrite <- app_assoc. cbn [app]. rewrite nth_error_mid. cbn [bind]. rewrite last_em_snoc. reflexivity. }
+      rewrite Hprev. cbn [bind].
+      rewrite app_length. cbn [length]. unfold usize_sub at 1.
+      replace (Nat.leb 1 (length done + S (length t))) with true by lia. cbn [bind].
+      assert (Hnext : (if Nat.eqb (length done) (length done + S (length t) - 1) then Some slen
+                       else do t57 <- nth_error (done ++ p :: t) (length done + 1); Some (BasePattern_start_match t57))
+                      = Some (match map convb t with [] => slen | q :: _ => b_sm q end)).
+      { destruct t as [|q t'].
+        - cbn [length map]. replace (Nat.eqb (length done) (length done + 1 - 1)) with true by lia. reflexivity.
+        - cbn [length map]. replace (Nat.eqb (length done) (length done + S (S (length t')) - 1)) with false by lia.
+          replace (done ++ p :: q :: t') with ((done ++ [p]) ++ q :: t') by (rewrite <- app_assoc; reflexivity).
+          replace (length done + 1) with (length (done ++ [p])) by (rewrite app_length; reflexivity).
+          rewrite nth_error_mid. reflexivity. }
+      rewrite Hnext. cbn [bind]. rewrite canon_set_match. cbn [bind].
+      rewrite list_upd_mid. cbn [bind].
+      set (p' := BasePattern_mk (BasePattern_start p) (BasePattern_end p) (BasePattern_is_rigid p) (last_em done)
+                   (match map convb t with [] => slen | q :: _ => b_sm q end)).
+      specialize (IH (done ++ [p'])). rewrite app_length in IH. cbn [length] in IH.
+      replace (length done + 1) with (S (length done)) in IH by lia. rewrite <- app_assoc in IH. cbn [app] in IH.
+      destruct IH as (R & H1 & H2). exists (p' :: R). split.
+      * rewrite H1, <- app_assoc. reflexivity.
+      * cbn [map]. rewrite last_em_snoc in H2. rewrite H2. subst p'. rewrite convb_set_match. cbn [b_em b_set_match convb].
+        rewrite Er. reflexivity.
+Qed.
+
+(* set_flexible_regions never panics and is the model's pass *)
+Lemma link_set_flexible_regions l slen :
+  option_map (fun r => map convb (fst r)) (M_fn_set_flexible_regions l slen) = Some (set_flexible_regions (map convb l) slen).
+Proof.
+  unfold M_fn_set_flexible_regions, fn_set_flexible_regions, set_flexible_regions.
+  destruct (link_sfr_loop slen l []) as (R & H1 & H2). cbn [length app] in H1. rewrite Nat.sub_0_r.
+  destruct (fn_set_flexible_regions_loop1 (seq 0 (length l)) slen l) as [[x|x]|]; cbn [sfr_res] in H1; try discriminate.
+  injection H1 as ->. cbn [bind option_map fst]. f_equal. exact H2.
+Qed.
+
+(* ---- match_flexible_patterns ---- *)
+Definition flex_ok (u v : list RE) (q : bpat) : Prop :=
+  b_rigid q = false -> b_sm q <= b_em q <= length u /\ b_start q <= b_end q <= length v.
+
+Definition mf_res (r : option (loopres (list BasePattern * bool) (list BasePattern))) : option (bool * list bpat) :=
+  match r with
+  | Some (LoopReturn (l, b)) => Some (b, map convb l)
+  | Some (LoopDone l) => Some (true, map convb l)
+  | None => None
+  end.
+
+Lemma link_mf_loop u v pats0 : forall l acc, Forall (fun p => flex_ok u v (convb p)) l ->
+  mf_res (fn_match_flexible_patterns_loop1 l u v pats0 acc)
+  = Some (forallb (fun p => b_rigid p || flexible_match (slice (map conv_re v) (b_start p) (b_end p))) (map convb l),
+          map convb (acc ++ l)).
+Proof.
+  induction l as [|p l IH]; intros acc Hl; [cbn; rewrite app_nil_r; reflexivity|].
+  inversion Hl as [|? ? Hp Hl']; subst.
+  cbn [fn_match_flexible_patterns_loop1 map forallb]. change (b_rigid (convb p)) with (BasePattern_is_rigid p).
+  destruct (BasePattern_is_rigid p) eqn:Er; cbn [negb orb bind].
+  - rewrite (IH _ Hl'). rewrite <- app_assoc. reflexivity.
+  - destruct (Hp Er) as [[Ha Hb] [Hc Hd]]. cbn [convb b_sm b_em b_start b_end] in *.
+    unfold slice_range.
+    replace (Nat.leb (BasePattern_start_match p) (BasePattern_end_match p) && Nat.leb (BasePattern_end_match p) (length u)) with true by lia.
+    replace (Nat.leb (BasePattern_start p) (BasePattern_end p) && Nat.leb (BasePattern_end p) (length v)) with true by lia.
+    cbn [bind]. rewrite link_flexible_match. cbn [bind]. rewrite slice_conv.
+    destruct (flexible_match (slice (map conv_re v) (BasePattern_start p) (BasePattern_end p))); cbn [negb andb].
+    + rewrite (IH _ Hl'). rewrite <- app_assoc. reflexivity.
+    + reflexivity.
+Qed.
+
+(* match_flexible_patterns: the model's verdict; the pattern array handed back is the model's set_flexible_regions *)
+Lemma link_match_flexible_patterns u v l :
+  Forall (flex_ok u v) (set_flexible_regions (map convb l) (length u)) ->
+  option_map (fun r => snd r) (M_fn_match_flexible_patterns u v l)
+  = Some (match_flexible_patterns (map conv_re u) (map conv_re v) (map convb l)).
+Proof.
+  intros Hok. unfold M_fn_match_flexible_patterns, fn_match_flexible_patterns, match_flexible_patterns.
+  destruct l as [|p0 l0]; [destruct u; reflexivity|]. cbn [map]. rewrite map_length.
+  pose proof (link_set_flexible_regions (p0 :: l0) (length u)) as Hs. cbn [map] in Hs.
+  destruct (M_fn_set_flexible_regions (p0 :: l0) (length u)) as [[ps un]|]; [|discriminate Hs].
+  cbn [option_map fst] in Hs. injection Hs as Hs. cbn [bind].
+  cbn [map] in Hok. rewrite <- Hs in Hok. rewrite Forall_map in Hok.
+  pose proof (link_mf_loop u v ps ps [] Hok) as H. cbn [app] in H.
+  rewrite <- Hs.
+  destruct (fn_match_flexible_patterns_loop1 ps u v ps []) as [[[r b]|r]|]; cbn [mf_res] in H; try discriminate;
+    cbn [bind option_map snd]; congruence.
+Qed.
+
+(* ---- find_rigid_matches_rev: the reversed list is processed, the result reversed back ---- *)
+Definition frmr_res (r : option (loopres (list BasePattern * bool) (list BasePattern * nat))) : option (bool * list bpat) :=
+  match r with
+  | Some (LoopReturn (l, b)) => Some (b, map convb l)
+  | Some (LoopDone (l, _)) => Some (true, map convb (rev l))
+  | None => None
+  end.
+
+Lemma prev_le pat s i j k : prev_rigid_match pat s i = Some (j, k) -> j <= i.
+Proof.
+  unfold prev_rigid_match. intros H.
+  assert (G : forall l r, first_some (fun j0 => if rigid_at pat s (j0 - length pat) then Some (j0 - length pat, j0) else None) l = Some r ->
+              exists x, In x l /\ r = (x - length pat, x)).
+  { induction l as [|x l IHl]; intros r Hr; [discriminate|]. cbn [first_some] in Hr.
+    destruct (rigid_at pat s (x - length pat)).
+    - injection Hr as <-. exists x. split; [left; reflexivity|reflexivity].
+    - destruct (IHl r Hr) as (y & Hy & E). exists y. split; [right; exact Hy|exact E]. }
+  destruct (G _ _ H) as (x & Hx & E). injection E as -> ->. apply in_rev, in_seq in Hx. lia.
+Qed.
+
+Lemma link_frmr_loop u v pats0 : forall l acc i, Forall (rigid_ok v) l -> i <= length u ->
+  frmr_res (fn_find_rigid_matches_rev_loop1 l u v pats0 acc i)
+  = Some (let '(ok, t') := find_rigid_matches_rev_go (map conv_re u) (map conv_re v) (map convb l) i in
+          (ok, rev (map convb acc ++ t'))).
+Proof.
+  induction l as [|p l IH]; intros acc i Hl Hi.
+  - cbn. rewrite app_nil_r, map_rev. reflexivity.
+  - inversion Hl as [|? ? Hp Hl']; subst.
+    cbn [fn_find_rigid_matches_rev_loop1 map find_rigid_matches_rev_go]. change (b_rigid (convb p)) with (BasePattern_is_rigid p).
+    destruct (BasePattern_is_rigid p) eqn:Er.
+    + destruct (pat_sets_link v p (Hp Er)) as (cs0 & Hs1 & Hs2 & Hcs). rewrite Hs1. cbn [bind]. rewrite Hs2. cbn [bind].
+      pose proof (link_prev_rigid_match cs0 u i Hi) as Hn. rewrite Hcs in Hn.
+      destruct (M_fn_prev_rigid_match cs0 u i) as [[j k|]|]; cbn [option_map convsr] in Hn; try discriminate;
+        injection Hn as Hn; rewrite <- Hn; cbn [bind].
+      * rewrite canon_set_match. cbn [bind].
+        assert (Hj : j <= length u).
+        { symmetry in Hn. apply prev_le in Hn. lia. }
+        rewrite (IH _ j Hl' Hj).
+        destruct (find_rigid_matches_rev_go (map conv_re u) (map conv_re v) (map convb l) j) as [ok t'].
+        rewrite map_app, <- app_assoc. cbn [map app]. rewrite convb_set_match. reflexivity.
+      * cbn [frmr_res]. rewrite map_rev, map_app. reflexivity.
+    + rewrite (IH _ i Hl' Hi).
+      destruct (find_rigid_matches_rev_go (map conv_re u) (map conv_re v) (map convb l) i) as [ok t'].
+      rewrite map_app, <- app_assoc. reflexivity.
+Qed.
+
+Lemma link_find_rigid_matches_rev u v l : Forall (rigid_ok v) l ->
+  option_map (fun r => (snd r, map convb (fst r))) (M_fn_find_rigid_matches_rev u v l)
+  = Some (find_rigid_matches_rev (map conv_re u) (map conv_re v) (map convb l)).
+Proof.
+  intros Hl. unfold M_fn_find_rigid_matches_rev, fn_find_rigid_matches_rev, find_rigid_matches_rev.
+  assert (Hl' : Forall (rigid_ok v) (rev l)) by (apply Forall_rev; exact Hl).
+  pose proof (link_frmr_loop u v l (rev l) [] (length u) Hl' (le_n _)) as H. cbn [map app] in H.
+  rewrite map_rev in H. rewrite map_length.
+  destruct (find_rigid_matches_rev_go (map conv_re u) (map conv_re v) (rev (map convb l)) (length u)) as [ok t'] eqn:Em.
+  destruct (fn_find_rigid_matches_rev_loop1 (rev l) u v l [] (length u)) as [[[r b]|[r i]]|]; cbn [frmr_res] in H; try discriminate;
+    cbn [bind option_map fst snd]; congruence.
+Qed.
